@@ -224,10 +224,10 @@ func (n *ModifierIfElseNode) String() string {
 	}
 
 	buff.WriteString(" if ")
-	buff.WriteString(n.Condition.String())
+	writeExpressionWithoutModifier(&buff, n.Condition)
 	buff.WriteString(" else ")
 
-	elseParens := ExpressionPrecedence(n) > ExpressionPrecedence(n.ElseExpression)
+	elseParens := ExpressionPrecedence(n) >= ExpressionPrecedence(n.ElseExpression)
 	if elseParens {
 		buff.WriteRune('(')
 	}
@@ -359,7 +359,7 @@ func (n *ModifierForInNode) String() string {
 	buff.WriteString(" for ")
 	buff.WriteString(n.Pattern.String())
 	buff.WriteString(" in ")
-	buff.WriteString(n.InExpression.String())
+	writeExpressionWithoutModifier(&buff, n.InExpression)
 	return buff.String()
 }
 
